@@ -284,7 +284,7 @@ NOT_APPLICABLE = {}
 CORE_TRUST = ("Lean kernel + {propext, Classical.choice, Quot.sound}; hand-written L1 model tied to the code by the "
               "correspondence check (real World vs Lean driver, every result and full dump, Inv evaluated on every real "
               "dump through the brood_verif dump hook); Vec/VecDeque/hashbrown modelled as lists; hash iteration order "
-              "abstracted (sorted, clear order taken from the real table)")
+              "abstracted (sorted; the order in which clear visits the tables is read from the real table and only decides the order of drops — the allocator it leaves is proved not to depend on it)")
 
 SCHED_TRUST = ("Lean kernel + {propext, Classical.choice, Quot.sound}; conflict tables regenerated from the source by the translator on every run; hand-written stager / stage-runner model tied to the code by type_name of the real Stages type and by the fork/join log of the brood_verif join shim; PARTIAL: tasks are atomic in the model (instruction-level interleaving of data-race-free tasks, rayon work stealing and join are not modelled)")
 
@@ -302,40 +302,40 @@ PROPS = {
                 level="query model (filter recursion, bit-walk column selection, optional views, entry and sub-view queries, size_hint) with theorems in Props/C03.lean; a generated family of typed queries run on the real World after random histories and compared row-for-row with the model; size_hint checked against the true remaining count at every step",
                 trust=CORE_TRUST + "; the typed query family is finite (listed in evidence)", technique="Lean 4 proof over the query model + differential correspondence check on a generated typed query family"),
     "C05": dict(runs=all_runs,
-                level="theorem: no modelled op sequence reaches an unchecked access with a violated precondition (Out.ub unreachable under Inv; Props/C05.lean); the real run is watched by a tracking global allocator (layout equality at dealloc/realloc, double free, everything obtained during library calls returned after the worlds are dropped), self-checking payloads (type confusion / stale reads), std's debug assertions on unchecked accesses, and crash attribution",
+                level="theorem: no modelled op sequence reaches an unchecked access with a violated precondition (Out.ub unreachable under Inv; Props/C05.lean); Batch::new's column-length guard checked exhaustively (constructor family); the real run is watched by a tracking global allocator (layout equality at dealloc/realloc, double free, everything obtained during library calls returned after the worlds are dropped), self-checking payloads (type confusion / stale reads), std's debug assertions on unchecked accesses, and crash attribution",
                 trust=CORE_TRUST + "; PARTIAL: the model has no bytes — allocation sizes, Vec growth, pointer provenance are observed on the real side only (allocator audit), not proved", technique="Lean 4 proof (no-UB over the protocol model) + differential correspondence check with allocator audit"),
     "C10": dict(runs=core_runs,
-                level="clone and clone_from never fail, preserve Inv, yield the source's map with copied values, clone == original (Props/C10.lean); pairs of worlds cloned into each other after random histories, then mutated / dropped independently; every world is tracked separately by the model and by the L0 spec, so any leak of one world's change into another shows as a disagreement",
+                level="clone and clone_from never fail, preserve Inv, yield the source's map with copied values, clone == original; a clone and its original fed the same operations are issued the same identifiers for ever (C10_clone_lockstep) (Props/C10.lean); pairs of worlds cloned into each other after random histories, then mutated / dropped independently; every world is tracked separately by the model and by the L0 spec, so any leak of one world's change into another shows as a disagreement",
                 trust=CORE_TRUST, technique="Lean 4 proof (clone preserves Inv and abs; fresh handles) + differential correspondence check on world pairs"),
     "C15": dict(runs=res_runs,
-                level="resource theorems (Props/C15.lean: position lookup, views in any order, frame); generated view_resources orders/kinds, get_mut writes, interleaved with entity histories, clone, clone_from and serde round trips; resources compared after every op with the model and the L0 spec",
+                level="resource theorems (Props/C15.lean: position lookup, views in any order, frame for every operation; in schedules no two tasks of a phase claim one resource with a mutable claim); the schedule family with resource views is run against the sequential reference; generated view_resources orders/kinds, get_mut writes, interleaved with entity histories, clone, clone_from and serde round trips; resources compared after every op with the model and the L0 spec",
                 trust=CORE_TRUST, technique="Lean 4 proof (frame + permutation lemmas) + differential correspondence check on generated resource views"),
     "C16": dict(runs=core_runs,
                 level="equality theorems (Props/C16.lean: reflexive, symmetric under Inv, sound w.r.t. abs); `==` evaluated in both directions on pairs of worlds built by different histories and compared with the model; L0 oracle: worlds that compare equal must hold the same map and resources, a == a, a == b iff b == a",
                 trust=CORE_TRUST, technique="Lean 4 proof (soundness/symmetry of eqWorld) + differential correspondence check with an L0 soundness oracle"),
     "C07": dict(runs=sched_runs,
-                level="every task staged exactly once in order; run time: sequential-equivalence theorem — the phases of the stage runner, tasks of a phase in any order, equal the declared order for every claim-respecting task semantics; each task once (Props/C07.lean) over the generated tables; each schedule of a generated typed family is run by run_schedule under scripted fork/join orders (all-first, all-second, random) and on real pools of 1, 2, 8 threads on clones of random worlds and compared with the same systems run one by one in declared order (world dump, resources, per-system accumulators, run counts)",
+                level="every task staged exactly once in order; run time: sequential-equivalence theorem — the phases of the stage runner, tasks of a phase in any order, equal the declared order for every claim-respecting task semantics; each task once; step-level: every task a program of claim-respecting steps, any interleaving per phase equals the declared-order sequential run (C07_interleaving_equivalence) (Props/C07.lean) over the generated tables; each schedule of a generated typed family is run by run_schedule under scripted fork/join orders (all-first, all-second, random) and on real pools of 1, 2, 8 threads on clones of random worlds and compared with the same systems run one by one in declared order (world dump, resources, per-system accumulators, run counts)",
                 trust=SCHED_TRUST, technique="Lean 4 proof (stager partition theorems over generated tables) + differential check against the sequential run under scripted fork/join orders"),
     "C08": dict(runs=sched_runs,
                 level="verifier table sound, Claim::try_merge sound (generated tables, kernel-decided), every group of every schedule pairwise compatible; run time: the claim map is the exact join of the running tasks' claims, the add-on decision is exact, every phase is pairwise conflict free (Props/C08.lean); static groups of real schedule types and the run-time phases (which next-stage tasks start early) compared with the model through the fork/join log, which covers all interleavings of a run at once",
                 trust=SCHED_TRUST, technique="Lean 4 proof (table soundness + stager invariant) + fork/join-structure correspondence check"),
     "C12": dict(runs=sched_runs,
-                level="verifier table precise, stage boundaries justified by a conflict, independent tasks appended, an independent next-stage task is accepted as add-on (Props/C12.lean); static grouping of real schedule types read from type_name::<S::Stages>() and compared with the model's greedy stager; every schedule run to completion on pools of 1, 2 and 8 threads",
+                level="verifier table precise, stage boundaries justified by a conflict, independent tasks appended, an independent next-stage task is accepted as add-on (Props/C12.lean); harness oracles on the real fork/join log: tasks of one phase pairwise unordered, no stage mate held back while nothing it conflicts with runs; static grouping of real schedule types read from type_name::<S::Stages>() and compared with the model's greedy stager; every schedule run to completion on pools of 1, 2 and 8 threads",
                 trust=SCHED_TRUST + "; termination of the real run_schedule is exercised, not proved", technique="Lean 4 proof (precision + maximality of the greedy stager over generated tables) + static staging correspondence via type_name"),
     "C09": dict(runs=par_runs,
-                level="for every split tree: leaves partition the sequence, zipped leaves equal the sequential zip, the None filler splits consistently; par_query over any traversal order and any split trees is a permutation of query (Props/C09.lean); par_query on a generated typed family under pools of 1, 2, 3, 8, 16 threads and three consumption modes (collect, fold/reduce, for_each) compared row-for-row (as multisets) with the model and the L0 spec, writes through mutable views compared, addresses of all mutable items of one parallel iteration pairwise distinct; ParSystem outcomes are covered by the schedule runs (C07)",
+                level="for every split tree: leaves partition the sequence, zipped leaves equal the sequential zip, the None filler splits consistently; par_query over any traversal order and any split trees is a permutation of query, the mutable addresses it hands out are pairwise distinct, row-local updates end in the sequential result (Props/C09.lean); par_query on a generated typed family under pools of 1, 2, 3, 8, 16 threads and three consumption modes (collect, fold/reduce, for_each) compared row-for-row (as multisets) with the model and the L0 spec, writes through mutable views compared, addresses of all mutable items of one parallel iteration pairwise distinct; ParSystem outcomes are covered by the schedule runs (C07)",
                 trust=CORE_TRUST + "; PARTIAL: rayon bridge / MultiZip / splitter and hashbrown's parallel bucket iterator assumed to hand each item to exactly one leaf", technique="Lean 4 proof over arbitrary split trees + differential correspondence check under several pool sizes"),
     "C14": dict(runs=c14_runs, static=True,
                 level="accepts => Sound proved by kernel decision over the whole program family outside the recorded finding (Props/C14.lean), with `accepts` computed from tables re-extracted from the source on every run (every unsafe impl Send/Sync with its bounds, the entry-query signatures, the SubViewable impl table); every program of the family (each pair of view kinds in each position, repeated entry queries, resource views, components outside the registry, each thread-crossing API with Send+Sync / !Sync / !Send payloads; conflicting programs next to conflict-free twins) is instantiated as Rust source and compiled by rustc against the current tree: verdict compared with `accepts`, and every accepted program checked against `Sound`",
                 trust="Lean kernel + {propext, Classical.choice, Quot.sound}; translator; PARTIAL: rustc's trait solver and borrow checker are the implementation here — the model reproduces their verdict on this family only (272 programs)", technique="Lean 4 proof by kernel decision over a program family, tables generated from the source + rustc verdict correspondence"),
     "C17": dict(runs=fault_runs, static=True,
-                level="mechanism of the clear finding and safety of the length-first order, Entry::remove: mid-move drop unsafe (witness) / drop-last safe, proved on the fault model (Props/C17.lean); fault enumeration on the real crate (each fault followed by a use phase through the safe API): for small worlds with multi-column archetypes, every operation that calls user code x callback (Drop, Clone, PartialEq, Debug, Serialize, Deserialize, query body) x position k, each fault point in its own child process: the panic is caught, then a ledger of individually identified values (no value dropped twice), self-checking payloads, the allocator audit and the final drop of every world are checked; (operation, callback) pairs the model table calls safe must show no failure, the others are the recorded findings",
+                level="mechanism of the clear finding and safety of the length-first order, Entry::remove: mid-move drop unsafe (witness) / drop-last safe, the recorded remove and clone_from findings as double-drop theorems for every layout, proved on the fault model (Props/C17.lean); fault enumeration on the real crate (each fault followed by a use phase through the safe API): for small worlds with multi-column archetypes, every operation that calls user code x callback (Drop, Clone, PartialEq, Debug, Serialize, Deserialize, query body) x position k, each fault point in its own child process: the panic is caught, then a ledger of individually identified values (no value dropped twice), self-checking payloads, the allocator audit and the final drop of every world are checked; (operation, callback) pairs the model table calls safe must show no failure, the others are the recorded findings",
                 trust="Lean kernel + {propext, Classical.choice, Quot.sound}; the table of safe (operation, callback) pairs is hand-written from the code and compared with the enumeration; PARTIAL: unwinding, Vec's internal panic guards and rayon's panic propagation are taken from their documentation, not modelled", technique="Lean 4 proof on a fault model + fault enumeration in child processes with a drop ledger"),
     "C18": dict(runs=ctor_runs,
                 level="assert_no_duplicates accepts exactly duplicate-free registries of any length, every path to a World literal passes it, Batch::new accepts exactly equal-length columns (Props/C18.lean, over shapes and a constructor graph re-extracted from the source on every run); exhaustive run of new / with_resources / default / deserialize (both encodings) on 120 registries of length 2-9 with every pair of equal positions plus duplicate-free controls, and of Batch::new on all 340 combinations of column lengths 0-3 for 1-4 columns",
                 trust="Lean kernel + {propext, Classical.choice, Quot.sound}; translator (regex extraction of the check's shape and of the constructor call graph; its report is in the evidence); World's fields are private to src/world so no other literal exists", technique="Lean 4 proof over source-extracted shapes + exhaustive constructor run"),
     "C06": dict(runs=serde_runs,
-                level="token-level model of Serialize/Deserialize (both encodings); round-trip theorem: for every world with Inv (hence every world of every history) deserialize(serialize w) succeeds, satisfies Inv, == w both ways, same map/len/resources, same next identifier (Props/C06.lean); the real token stream of every round trip is deserialized by the real code and by the model, dumps compared, the copy then driven in lock-step with further ops; rejection of a reachable world's serialization is an oracle failure",
+                level="token-level model of Serialize/Deserialize (both encodings); round-trip theorem: for every world with Inv (hence every world of every history) deserialize(serialize w) succeeds, satisfies Inv, == w both ways, same map/len/resources; lock step: original and copy fed the same operations (any history, clear in any table order) are issued the same identifiers for ever (C06_lockstep; the allocator left by clear does not depend on table order) (Props/C06.lean); the real token stream of every round trip is deserialized by the real code and by the model, dumps compared, the copy then driven with further ops; while original and copy receive the same operations the executor requires the same identifiers (oracle=lockstep); rejection of a reachable world's serialization is an oracle failure",
                 trust=CORE_TRUST + "; serde_assert 0.5 framing rules modelled from its source", technique="Lean 4 proof (round trip on the token model) + differential correspondence check on real token streams"),
     "C11": dict(runs=mutate_runs,
                 level="the model deserializer decides every token stream (Props/C11.lean: accepted => Inv); mutated real serializations (delete/duplicate/swap/alter tokens, headers, field names, whole elements) are fed to the real code and the model: verdicts and resulting worlds compared, Inv evaluated on every accepted world, ledger checked for double drops",
